@@ -4,7 +4,7 @@
 set -e
 cd "$(dirname "$0")"
 export CARGO_NET_OFFLINE=true
-( cd harness && cargo build --offline --release --workspace --bins 2>&1 | grep -v "^warning\|^ *|\|^ *=\|^$\|^ *-->\|^ *[0-9]* *|" | tail -5 )
+( cd harness && cargo build --offline --release --workspace --bins 2>&1 | grep -v "^warning\|^ *|\|^ *=\|^$\|^ *-->\|^ *[0-9]* *|" | tail -3; cargo build --offline --profile chk --workspace --bins 2>&1 | grep -v "^warning\|^ *|\|^ *=\|^$\|^ *-->\|^ *[0-9]* *|" | tail -3 )
 ( cd tables && sha256sum -c SHA256SUMS >/dev/null && echo "setup: C11 tables match SHA256SUMS" )
 if command -v python3-vt >/dev/null 2>&1; then
   T=$(mktemp -d)
